@@ -489,3 +489,96 @@ func WriteIfChanged(path, content string) (bool, error) {
 	}
 	return true, os.Rename(tmp, path)
 }
+
+// DecoderLimits reads the decoder's configured size limits from encoder/encoder.go (the composite
+// literal cbor.DecOptions{...}): MaxArrayElements, MaxMapPairs, MaxNestedLevels. A key that is not set
+// is reported as 0 (= the library default: 131072 / 131072 / 32 in fxamacker/cbor v2).
+func DecoderLimits(repo string) (map[string]int64, error) {
+	fn := filepath.Join(repo, "encoder", "encoder.go")
+	fset := token.NewFileSet()
+	af, err := parser.ParseFile(fset, fn, nil, parser.SkipObjectResolution)
+	if err != nil {
+		return nil, err
+	}
+	consts := map[string]ast.Expr{}
+	for _, d := range af.Decls {
+		if gd, ok := d.(*ast.GenDecl); ok && gd.Tok == token.CONST {
+			for _, sp := range gd.Specs {
+				vs := sp.(*ast.ValueSpec)
+				for i, n := range vs.Names {
+					if i < len(vs.Values) {
+						consts[n.Name] = vs.Values[i]
+					}
+				}
+			}
+		}
+	}
+	var eval func(e ast.Expr) (int64, error)
+	eval = func(e ast.Expr) (int64, error) {
+		switch x := e.(type) {
+		case *ast.BasicLit:
+			v, err := strconv.ParseInt(strings.ReplaceAll(x.Value, "_", ""), 0, 64)
+			return v, err
+		case *ast.Ident:
+			if c, ok := consts[x.Name]; ok {
+				return eval(c)
+			}
+		case *ast.ParenExpr:
+			return eval(x.X)
+		case *ast.BinaryExpr:
+			a, err := eval(x.X)
+			if err != nil {
+				return 0, err
+			}
+			b, err := eval(x.Y)
+			if err != nil {
+				return 0, err
+			}
+			switch x.Op {
+			case token.SHL:
+				return a << uint(b), nil
+			case token.MUL:
+				return a * b, nil
+			case token.ADD:
+				return a + b, nil
+			case token.SUB:
+				return a - b, nil
+			}
+		}
+		return 0, fmt.Errorf("encoder.go: decoder limit expression outside the translator's subset")
+	}
+	out := map[string]int64{"MaxArrayElements": 0, "MaxMapPairs": 0, "MaxNestedLevels": 0}
+	found := false
+	var ferr error
+	ast.Inspect(af, func(n ast.Node) bool {
+		cl, ok := n.(*ast.CompositeLit)
+		if !ok {
+			return true
+		}
+		se, ok := cl.Type.(*ast.SelectorExpr)
+		if !ok || se.Sel.Name != "DecOptions" {
+			return true
+		}
+		found = true
+		for _, el := range cl.Elts {
+			kv, ok := el.(*ast.KeyValueExpr)
+			if !ok {
+				continue
+			}
+			if id, ok := kv.Key.(*ast.Ident); ok {
+				if _, want := out[id.Name]; want {
+					v, err := eval(kv.Value)
+					if err != nil {
+						ferr = err
+					}
+					out[id.Name] = v
+				}
+			}
+		}
+		return true
+	})
+	if !found {
+		return nil, fmt.Errorf("encoder.go: no cbor.DecOptions literal found")
+	}
+	return out, ferr
+}
